@@ -10,7 +10,101 @@ import (
 	"golang.org/x/tools/go/ssa"
 )
 
+// siteObligations: contract clauses attached to this call site.
+func (ex *Exec) siteObligations(c *ssa.Call) {
+	if ex.con == nil || len(ex.con.Sites) == 0 {
+		return
+	}
+	com := c.Common()
+	name := ""
+	if com.IsInvoke() {
+		name = com.Method.Name()
+	} else if b, ok := com.Value.(*ssa.Builtin); ok {
+		name = b.Name()
+	} else if cal := com.StaticCallee(); cal != nil {
+		name = cal.Name()
+	}
+	if name == "" {
+		return
+	}
+	key := fmt.Sprintf("%s#%d", name, ex.callSiteOrdinal(c, name))
+	for _, ss := range ex.con.Sites {
+		if ss.Key != key {
+			continue
+		}
+		m := map[string]Val{}
+		for k, v := range ex.params {
+			m[k] = v
+		}
+		// position of the call in its block
+		b := c.Block()
+		pos := 0
+		for i, in := range b.Instrs {
+			if in == ssa.Instruction(c) {
+				pos = i
+			}
+		}
+		for _, p := range ss.Vars {
+			if strings.HasPrefix(p.Name, "arg") {
+				var k int
+				if _, err := fmt.Sscanf(p.Name, "arg%d", &k); err == nil {
+					if a := ex.actualArg(c, k); a != nil {
+						m[p.Name] = ex.get(a)
+						continue
+					}
+				}
+			}
+			if v := ex.reachingDef(p.Name, b, pos); v != nil {
+				m[p.Name] = ex.get(v)
+			} else {
+				ex.unsup("site %s: cannot resolve variable %s", key, p.Name)
+			}
+		}
+		for i, cl := range ss.Requires {
+			lbl := cl.Label
+			if lbl == "" {
+				lbl = fmt.Sprintf("%d", i+1)
+			}
+			t := ex.clauseTerm(cl, m, ex.st, ex.entry, true)
+			ex.oblige("site", key+":"+lbl, t, c.Pos())
+			ex.obligs[len(ex.obligs)-1].Clause = cl
+		}
+	}
+}
+
+// reachingDef: the SSA value a named source variable has just before instruction idx of block b.
+func (ex *Exec) reachingDef(name string, b *ssa.BasicBlock, idx int) ssa.Value {
+	for blk, start := b, idx-1; blk != nil; blk, start = blk.Idom(), -2 {
+		k := start
+		if k == -2 {
+			k = len(blk.Instrs) - 1
+		}
+		for ; k >= 0; k-- {
+			switch in := blk.Instrs[k].(type) {
+			case *ssa.DebugRef:
+				if id, ok := in.Expr.(interface{ String() string }); ok && !in.IsAddr && id.String() == name {
+					return in.X
+				}
+			case *ssa.Phi:
+				if in.Comment == name {
+					return in
+				}
+			}
+		}
+	}
+	for _, p := range ex.fn.Params {
+		if p.Name() == name {
+			return p
+		}
+	}
+	return nil
+}
+
 func (ex *Exec) call(c *ssa.Call) {
+	ex.siteObligations(c)
+	if len(ex.unsupported) > 0 {
+		return
+	}
 	com := c.Common()
 	env := ex.env
 	if b, ok := com.Value.(*ssa.Builtin); ok {
@@ -1029,6 +1123,8 @@ func (ex *Exec) callSiteOrdinal(c *ssa.Call, name string) int {
 			n := ""
 			if com.IsInvoke() {
 				n = com.Method.Name()
+			} else if bi, ok := com.Value.(*ssa.Builtin); ok {
+				n = bi.Name()
 			} else if cal := com.StaticCallee(); cal != nil {
 				n = cal.Name()
 			}
